@@ -559,7 +559,14 @@ def evaluate(tools, path, timeout=90):
         if cmd[0] is None:
             runs[key] = None
             continue
-        rc, out = sh(cmd, timeout)
+        ncases = max(1, open(path).read().count("\ncase ") + 1)
+        tmo = max(timeout, ncases // 3)                     # real code: a hang is a failure, but allow for a loaded machine
+        if key.startswith("model-"):
+            tmo *= 10
+        rc, out = sh(cmd, tmo)
+        if key.startswith("model-") and rc == 124:
+            # the model evaluator ran out of time: a machinery problem, never a verdict about the code
+            raise RuntimeError("model driver timed out on %s (%d cases, %d s)" % (path, ncases, tmo))
         cases, pre = split_cases(out)
         runs[key] = (rc, cases, pre)
     names = []
